@@ -12,6 +12,7 @@ REPO = os.environ.get("VERIF_REPO", "/repo")
 COQ = os.path.join(VERIF, "coq")
 EXTRACT = os.path.join(VERIF, "extract")
 MODEL_BIN = os.path.join(EXTRACT, "model")
+GENMODEL_BIN = os.path.join(EXTRACT, "gen", "genmodel")
 PY = "/venv/bin/python"
 
 
@@ -104,6 +105,7 @@ class Ctx:
         self.rnd = random.Random(seed)
         self.work = work
         self.model = Model()
+        self.genmodel = Model(GENMODEL_BIN)  # the translator's output, extracted
         self.evaluations = 0
         self.hashes = set()
         self.nontrivial = set()
